@@ -353,7 +353,46 @@ func (c11) Gen(rs uint64, tier string, race bool) interface{} {
 		c.Args = []string{c11Models[r.Intn(len(c11Models))], fmt.Sprint(r.Range(1, 3))}
 		return c
 	case "sched":
-		k := r.Intn(4)
+		k := r.Intn(8)
+		if k >= 4 {
+			// a stream of several Phylip alignments, the last one possibly malformed: the parser
+			// goroutine runs ahead of the command's consumer loop by a schedule-dependent distance
+			na := r.Range(2, 8)
+			if r.Chance(0.3) {
+				na = r.Range(16, 22) // more than the 15 slots of the channel
+			}
+			var ms strings.Builder
+			for i := 0; i < na; i++ {
+				mn, mq := c11Alignment(r, false)
+				for j := range mq {
+					mq[j] = mq[j][:8]
+				}
+				ms.WriteString(phylipOf(mn[:3], mq[:3]))
+			}
+			switch r.Intn(4) {
+			case 0:
+				ms.WriteString("   3   8\nSeq0000  ACGTACGT\nSeq0001  ACG\n") // truncated last alignment
+			case 1:
+				ms.WriteString("   2   8\nSeq0000  ACGTACGT\nSeq0001  ACGTACGTAA\n") // wrong length
+			}
+			c.Files["multi.phy"] = ms.String()
+			c.Seeded = true
+			switch k {
+			case 4:
+				c.Key = "sched consensus stream"
+				c.Args = strings.Fields("consensus --ignore-gaps=false --ignore-n=false --exclude-gaps=false -i {dir}/multi.phy --phylip=true -o {dir}/out.txt")
+			case 5:
+				c.Key = "sched stats char stream"
+				c.Args = strings.Fields("stats char --only * --per-sites=false --per-sequences=false -i {dir}/multi.phy --phylip=true")
+			case 6:
+				c.Key = "sched reformat stream"
+				c.Args = strings.Fields("reformat fasta --clean-names=false -i {dir}/multi.phy --phylip=true -o {dir}/out.txt")
+			default:
+				c.Key = "sched subseq stream"
+				c.Args = strings.Fields("subseq -s 1 -l 3 --ref-seq none --reverse=false --step 0 -i {dir}/multi.phy --phylip=true -o {dir}/out.txt")
+			}
+			return c
+		}
 		switch k {
 		case 0:
 			c.Key = "sched compute distance"
@@ -683,12 +722,18 @@ func (c *C11Case) runSched(ctx *Ctx, o *Outcome, fail func(string, string, ...in
 		defer verifrt.SetMapSeed(0, false)
 		defer verifrt.SetClock(0, false)
 		var res outc
+		// what the command prints goes to a file of the run's directory
+		oldStdout := os.Stdout
+		if sf, err := os.Create(filepath.Join(dir, "stdout.txt")); err == nil {
+			os.Stdout = sf
+			defer func() { os.Stdout = oldStdout; sf.Close() }()
+		}
 		res.sr = RunSched(ctx.T, SchedCfg{Seed: c.SchedSeed[k], Policy: c.Policy[k], MaxSteps: 400000}, func() {
 			gcmd.RootCmd.SetArgs(args)
 			res.err = gcmd.RootCmd.Execute()
 		})
 		res.files = map[string][]byte{}
-		for _, n := range []string{"out.txt", "out.aa"} {
+		for _, n := range []string{"out.txt", "out.aa", "stdout.txt"} {
 			if b, e := os.ReadFile(filepath.Join(dir, n)); e == nil {
 				res.files[n] = b
 			}
@@ -698,11 +743,13 @@ func (c *C11Case) runSched(ctx *Ctx, o *Outcome, fail func(string, string, ...in
 	a := run(0, 1)
 	b := run(1, c.Threads)
 	o.Add("sched_steps", int64(a.sr.Steps+b.sr.Steps))
-	for _, x := range []outc{a, b} {
+	exits := [2]int{-1, -1}
+	for xi, x := range []outc{a, b} {
 		for _, p := range x.sr.Panics {
 			if p.Exit >= 0 {
 				o.Add("command_exited_nonzero_in_process", 1)
-				return
+				exits[xi] = p.Exit
+				continue
 			}
 			fs := goalignFuncs(p.Stack)
 			top := "?"
@@ -721,17 +768,20 @@ func (c *C11Case) runSched(ctx *Ctx, o *Outcome, fail func(string, string, ...in
 			return
 		}
 	}
+	if exits[0] != exits[1] {
+		fail("depends-on-schedule", "the command exits with status %d under one schedule and %d under another (-1 = no exit)", exits[0], exits[1])
+		return
+	}
 	if (a.err == nil) != (b.err == nil) {
 		fail("depends-on-schedule", "the command returns %v under one schedule and %v under another", a.err, b.err)
 		return
 	}
 	if a.err != nil {
 		o.Add("command_failed_in_process", 1)
-		return
 	}
 	o.Nontrivial = true
 	o.Sig = hash64(o.Sig, a.sr.Hash, b.sr.Hash)
-	for _, n := range []string{"out.txt", "out.aa"} {
+	for _, n := range []string{"out.txt", "out.aa", "stdout.txt"} {
 		if !bytes.Equal(a.files[n], b.files[n]) {
 			fail("depends-on-schedule", "file %s differs between (1 thread, schedule seed %d) and (%d threads, schedule seed %d): %s", n, c.SchedSeed[0], c.Threads, c.SchedSeed[1], firstDiff(a.files[n], b.files[n]))
 			return
